@@ -176,6 +176,8 @@ def define_blockshape_3d(bits_per_voxel, blockshape, is_2d=False):
                                                             (blockshape[0] * blockshape[1] * bits_per_voxel)))
     # Whichever value was derived, one block must fill exactly one disk block with a layout ZFP and the reader support
     assert(bits_per_voxel * blockshape[0] * blockshape[1] * blockshape[2] == DISK_BLOCK_BYTES * 8)
+    # ZFP spends at least 9 bits on each block of 4x4 (2D) or 4x4x4 (3D) floats: lower rates do not exist
+    assert bits_per_voxel * (16 if is_2d else 64) >= 9
     assert all(n >= 4 and n & (n - 1) == 0 for n in blockshape[1:]) and \
         ((is_2d and blockshape[0] == 1) or (blockshape[0] >= 4 and blockshape[0] & (blockshape[0] - 1) == 0))
     return bits_per_voxel, blockshape
